@@ -189,6 +189,174 @@ theorem copy_ring_geom {s s' : St} {chunk : Bytes} {avail : Nat} (hi : s.isIniti
   · simp at h
   · simp at h
 
+/-! ### no slice of `data_mo` is out of bounds -/
+
+/-- `data_mo` is as long as `RingBufferInitBuffer` made it: nothing yet, or `2 + cur_size_ + 7` -/
+def AllocOK (rb : Ring) : Prop := (rb.allocLen = 0 ∧ rb.curSize = 0) ∨ rb.allocLen = 2 + rb.curSize + 7
+
+theorem initBuffer_no_panic {rb : Ring} {buflen : Nat} (hA : AllocOK rb) (h1 : rb.curSize ≤ buflen) (h2 : buflen < 4294967000) :
+    ∃ rb', ringInitBuffer rb buflen = .ok rb' ∧ rb'.allocLen = 2 + buflen + 7 := by
+  unfold ringInitBuffer
+  simp only
+  have e1 : (2 + buflen) % two32 = 2 + buflen := Nat.mod_eq_of_lt (by unfold two32; omega)
+  have e2 : (2 + rb.curSize) % two32 = 2 + rb.curSize := Nat.mod_eq_of_lt (by unfold two32; omega)
+  rw [e1, e2]
+  have c1 : ¬ (rb.allocLen ≠ 0 ∧ (2 + rb.curSize + 7 > 2 + buflen + 7 ∨ 2 + rb.curSize + 7 > rb.allocLen)) := by
+    intro ⟨hne, hh⟩
+    rcases hA with ⟨ha, _⟩ | ha
+    · exact hne ha
+    · omega
+  have c2 : ¬ (2 + buflen + 7 > 2 + buflen + 7) := by omega
+  rw [if_neg c1, if_neg c2]
+  exact ⟨_, rfl, rfl⟩
+
+
+theorem geom_bounds {rb : Ring} (g : RingGeom rb) : rb.size ≤ 2147483648 ∧ rb.totalSize ≤ 3221225472 ∧ 4 ≤ rb.size := by
+  obtain ⟨_, _, hsl, _, h31, hs4⟩ := g.lap_facts
+  have := g.tail
+  have := g.total
+  omega
+
+/-- **`RingBufferWrite` never indexes `data_mo` out of range** (writes of at most one block from a
+slice that is long enough), and leaves `data_mo` with the length it allocated -/
+theorem ringWrite_no_panic {rb : Ring} {input bytes : Bytes} {avail : Nat} (hR : RingOK rb input) (hA : AllocOK rb)
+    (hz : input = [] → rb.curSize = 0) (hn : bytes.length ≤ rb.tailSize) (hav : bytes.length ≤ avail) :
+    ∃ rb', ringWrite rb bytes avail = .ok rb' ∧ rb'.allocLen = 2 + rb'.curSize + 7 ∧ ((input ++ bytes) = [] → rb'.curSize = 0) := by
+  have g := hR.geom
+  obtain ⟨hs31, ht3, hs4⟩ := geom_bounds g
+  have htail := g.tail
+  have htot := g.total
+  have hmask := g.mask
+  unfold ringWrite
+  simp only
+  by_cases hfirst : rb.pos = 0 ∧ bytes.length < rb.tailSize
+  · rw [if_pos hfirst]
+    have hin : input = [] := hR.pos_zero hfirst.1
+    have hc0 := hz hin
+    have hA' : AllocOK { rb with pos := bytes.length } := hA
+    obtain ⟨rbi, hi, hal⟩ := initBuffer_no_panic (rb := { rb with pos := bytes.length }) (buflen := bytes.length) hA'
+      (by show rb.curSize ≤ bytes.length; omega) (by omega)
+    rw [hi]
+    simp only
+    have hc : ¬ (2 + bytes.length > rbi.allocLen ∨ bytes.length > avail) := by omega
+    rw [if_neg hc]
+    obtain ⟨i1, _⟩ := initBuffer_get hi
+    refine ⟨_, rfl, (by show rbi.allocLen = 2 + rbi.curSize + 7; rw [hal, i1]), ?_⟩
+    intro hnil
+    show rbi.curSize = 0
+    rw [i1]
+    have : bytes = [] := by
+      rw [hin] at hnil; simpa using hnil
+    rw [this]; rfl
+  · rw [if_neg hfirst]
+    -- growth
+    have hgrow : ∃ rbg, ringGrow rb = .ok rbg ∧ rbg.allocLen = 2 + rbg.totalSize + 7 ∧ rbg.curSize = rbg.totalSize
+        ∧ rbg.size = rb.size ∧ rbg.mask = rb.mask ∧ rbg.tailSize = rb.tailSize ∧ rbg.totalSize = rb.totalSize ∧ rbg.pos = rb.pos := by
+      unfold ringGrow
+      by_cases hlt : rb.curSize < rb.totalSize
+      · rw [if_pos hlt]
+        obtain ⟨rbi, hi, hal⟩ := initBuffer_no_panic (buflen := rb.totalSize) hA (by omega) (by omega)
+        rw [hi]
+        simp only
+        obtain ⟨i1, i2, i3, i4, i5, i6, _⟩ := initBuffer_get hi
+        have hc : ¬ (2 + rbi.size - 1 ≥ rbi.allocLen ∨ rbi.size < 2) := by rw [hal, i2]; omega
+        rw [if_neg hc]
+        exact ⟨_, rfl, by show rbi.allocLen = 2 + rbi.totalSize + 7; rw [hal, i5], by show rbi.curSize = rbi.totalSize; rw [i1, i5], i2, i3, i4, i5, i6⟩
+      · rw [if_neg hlt]
+        have hfull : rb.curSize = rb.totalSize := by
+          rcases hR.alloc with ha | ha
+          · exact ha
+          · omega
+        refine ⟨rb, rfl, ?_, hfull, rfl, rfl, rfl, rfl, rfl⟩
+        rcases hA with ⟨_, ha⟩ | ha
+        · omega
+        · rw [ha, hfull]
+    obtain ⟨rbg, hg, gal, gcur, e1, e2, e3, e4, e5⟩ := hgrow
+    rw [hg]
+    simp only
+    unfold ringWriteMain
+    simp only
+    rw [e2, hmask, e5, e3, e1, e4, gal, e4]
+    have hmp : rb.pos % rb.size < rb.size := Nat.mod_lt _ (by omega)
+    generalize rb.pos % rb.size = mp at hmp
+    generalize hnn : bytes.length = n at *
+    have c1 : (if mp < rb.tailSize then decide (2 + (rb.size + mp) + min n (rb.tailSize - mp) ≤ 2 + rb.totalSize + 7 ∧ min n (rb.tailSize - mp) ≤ avail) else true) = true := by
+      split
+      · simp only [decide_eq_true_eq]; omega
+      · rfl
+    rw [c1]
+    simp only [Bool.not_true, Bool.false_eq_true, ↓reduceIte]
+    have c2 : (if mp + n ≤ rb.size then decide (2 + mp + n ≤ 2 + rb.totalSize + 7 ∧ n ≤ avail)
+        else decide (rb.totalSize ≥ mp ∧ 2 + mp + min n (rb.totalSize - mp) ≤ 2 + rb.totalSize + 7 ∧ min n (rb.totalSize - mp) ≤ avail ∧
+              rb.size ≥ mp ∧ n ≥ rb.size - mp ∧ 2 + (n - (rb.size - mp)) ≤ 2 + rb.totalSize + 7 ∧ rb.size - mp + (n - (rb.size - mp)) ≤ avail)) = true := by
+      split
+      · simp only [decide_eq_true_eq]; omega
+      · simp only [decide_eq_true_eq]; omega
+    rw [c2]
+    simp only [Bool.not_true, Bool.false_eq_true, ↓reduceIte]
+    have c3 : ¬ (2 + rb.size - 1 ≥ 2 + rb.totalSize + 7 ∨ rb.size < 2) := by omega
+    rw [if_neg c3]
+    refine ⟨_, rfl, (by show _ = 2 + rbg.curSize + 7; rw [gcur, e4]), ?_⟩
+    intro hnil
+    exfalso
+    -- a non-first write of nothing onto nothing cannot happen: `pos_ = 0` and `0 < tail_size_`
+    have hin : input = [] := by
+      cases input with
+      | nil => rfl
+      | cons a as => simp at hnil
+    have hb : n = 0 := by
+      rw [hin] at hnil
+      have : bytes = [] := by simpa using hnil
+      rw [← hnn, this]; rfl
+    have hp0 : rb.pos = 0 := by
+      have := hR.posSmall (by rw [hin]; simp)
+      rw [hin] at this; simpa using this
+    have htpos : 0 < rb.tailSize := by
+      rcases hR.alloc with ha | ha
+      · have := hz hin; omega
+      · omega
+    exact hfirst ⟨hp0, by omega⟩
+
+
+/-- **`copy_input_to_ring_buffer` never panics** under the ring-buffer invariants -/
+theorem copy_no_panic {s : St} {chunk input : Bytes} {avail : Nat} (hi : s.isInitialized = true)
+    (hR : RingOK s.ring input) (hA : AllocOK s.ring) (hz : input = [] → s.ring.curSize = 0)
+    (hn : chunk.length ≤ s.ring.tailSize) (hav : chunk.length ≤ avail) :
+    ∃ s', copyInputToRingBuffer s chunk avail = .ok s' ∧ AllocOK s'.ring ∧ ((input ++ chunk) = [] → s'.ring.curSize = 0) := by
+  obtain ⟨rb, hw, hal, hz'⟩ := ringWrite_no_panic hR hA hz hn hav
+  have hR' := ringWrite_ok hR hn hw
+  unfold copyInputToRingBuffer
+  rw [ensureInitialized_id hi]
+  simp only
+  rw [hw]
+  simp only
+  have g := hR'.geom
+  obtain ⟨_, _, hsl, _, _, _⟩ := g.lap_facts
+  have hmask := g.mask
+  have htot := g.total
+  have hc : ¬ (rb.pos ≤ rb.mask ∧ 2 + rb.pos + 7 > rb.allocLen) := by
+    intro ⟨hfl, hbad⟩
+    have hP : rb.pos = (input ++ chunk).length := by
+      by_cases hc : (input ++ chunk).length ≤ rb.lap
+      · exact hR'.posSmall hc
+      · have := (hR'.posBig (by omega)).1
+        omega
+    rcases hR'.alloc with ha | ha
+    · omega
+    · omega
+  rw [if_neg hc]
+  refine ⟨_, rfl, ?_, ?_⟩
+  · simp only
+    split
+    · exact Or.inr hal
+    · exact Or.inr hal
+  · intro hnil
+    simp only
+    split
+    · exact hz' hnil
+    · exact hz' hnil
+
+
 /-- the bytes a log copies into the ring buffer -/
 def logCopy : List Ev → Bytes
   | [] => []
@@ -204,10 +372,11 @@ structure RingInv (s : St) (inp : Bytes) : Prop where
   init : s.isInitialized = true
   ok : RingOK s.ring inp
   tail : s.ring.tailSize = s.blockSize
+  alloc : AllocOK s.ring ∧ (inp = [] → s.ring.curSize = 0)
 
 theorem ringInv_of_eq {s s' : St} {inp : Bytes} (h : RingInv s inp) (h1 : s'.ring = s.ring) (h2 : s'.params.lgblock = s.params.lgblock)
     (h3 : s'.isInitialized = s.isInitialized) : RingInv s' inp := by
-  refine ⟨h3.trans h.init, by rw [h1]; exact h.ok, ?_⟩
+  refine ⟨h3.trans h.init, by rw [h1]; exact h.ok, ?_, by rw [h1]; exact h.alloc⟩
   rw [h1, blockSize_congr h2]; exact h.tail
 
 
@@ -234,7 +403,12 @@ theorem step_ring {o : Oracle} {op : Nat} {s s' : St} {io io' : Io} {e : Ev} {in
       omega
     obtain ⟨r1, _⟩ := copy_ring_ok hI.init hR.ok hlen h
     obtain ⟨c1, _, _, c4, _⟩ := copy_fields hI.init h
-    refine ⟨c4.trans hI.init, r1, ?_⟩
+    have hav : (io.input.take (copyN s io)).length ≤ io.input.length := by
+      rw [List.length_take]; exact Nat.min_le_right _ _
+    obtain ⟨s'', hs'', a1, a2⟩ := copy_no_panic hI.init hR.ok hR.alloc.1 hR.alloc.2 hlen hav
+    rw [h] at hs''
+    cases hs''
+    refine ⟨c4.trans hI.init, r1, ?_, a1, a2⟩
     rw [copy_ring_geom hI.init h, hR.tail]
     exact (blockSize_congr (s := s) (s' := s') (by rw [c1])).symm
   | pad hI hc hz h =>
@@ -295,6 +469,12 @@ theorem step_ring {o : Oracle} {op : Nat} {s s' : St} {io io' : Io} {e : Ev} {in
   | mdDone hM hop hpend hlf hst hz => simp only [Ev.copied, List.append_nil]; exact ringInv_of_eq hR rfl rfl rfl
   | mdOut hM hop hpend hlf hst hnz hao hle => simp only [Ev.copied, List.append_nil]; exact ringInv_of_eq hR rfl rfl rfl
   | mdTiny hM hop hpend hlf hst hnz hao hle => simp only [Ev.copied, List.append_nil]; exact ringInv_of_eq hR rfl rfl rfl
+
+/-- a freshly initialised ring buffer has nothing allocated -/
+theorem ring_alloc_fresh {s : St} (h : IsFresh s) :
+    AllocOK (ensureInitialized s).ring ∧ (([] : Bytes) = [] → (ensureInitialized s).ring.curSize = 0) := by
+  obtain ⟨p, rfl⟩ := h
+  exact ⟨Or.inl ⟨rfl, rfl⟩, fun _ => rfl⟩
 
 theorem logCopy_cons (e : Ev) (es : List Ev) : logCopy (e :: es) = e.copied ++ logCopy es := by
   cases e <;> simp [logCopy, Ev.copied]
